@@ -536,9 +536,22 @@ func checkC17(p *Prog, r *Report) {
 						nested = true
 					}
 				}
+				/* The table behind an atomic pointer kept in that field:
+				what its Load gave (or nil before the first store). */
+				viaLoad := false
+				lv := x.V
+				if u, isU := lv.(*ssa.UnOp); isU && token.MUL == u.Op {
+					lv = resolveCell(u.X)
+				}
+				if lc, isC := lv.(*ssa.Call); isC && strings.HasSuffix(calleeName(lc.Common()), ").Load") && 0 != len(lc.Common().Args) {
+					if bf, _ := fieldAddrOf(lc.Common().Args[0]); nil != bf && bf == filtersF {
+						viaLoad = true
+					}
+				}
 				switch {
 				case "field" == x.Kind && x.Field == filtersF:
-				case nested:
+				case nested, viaLoad:
+				case "const" == x.Kind && isNilConst(x.V):
 				default:
 					okk = false
 					why = append(why, x.String())
